@@ -50,6 +50,22 @@ func bigLit(s string) T {
 }
 
 func app(sort Sort, f string, args ...T) T {
+	// trivial arithmetic identities keep terms syntactically simple (offset 0, length 1)
+	if len(args) == 2 && sort == SInt {
+		switch f {
+		case "+":
+			if args[0].S == "0" {
+				return args[1]
+			}
+			if args[1].S == "0" {
+				return args[0]
+			}
+		case "-":
+			if args[1].S == "0" {
+				return args[0]
+			}
+		}
+	}
 	var b strings.Builder
 	b.WriteString("(")
 	b.WriteString(f)
